@@ -280,6 +280,7 @@ class SyncApi:
         e = dict(ev="Open", sid=sid, maxbuf=4080, apiuser=text(cfg.user), apiauth=cfg.auth, apipriv=cfg.priv)
         e.update(self.cfgref[0].ev())
         self.rec2.emit(e)
+        self.open_event, self.opened = e, {sid}
         ver = {"v1": SnmpVersion.v1, "v2c": SnmpVersion.v2c, "v3": SnmpVersion.v3}[cfg.ver]
         if auto_version and cfg.ver != "v1":
             ver = None
@@ -314,7 +315,8 @@ class SyncApi:
             pass
         self.th.join(1.0)
         self.sock.close()
-        self.rec2.emit(dict(ev="Close", sid=self.sid))
+        for k in sorted(self.opened):
+            self.rec2.emit(dict(ev="Close", sid=k))
 
 
 class AsyncApi:
@@ -350,6 +352,7 @@ class AsyncApi:
         e = dict(ev="Open", sid=sid, maxbuf=4080, apiuser=text(cfg.user), apiauth=cfg.auth, apipriv=cfg.priv)
         e.update(self.cfgref[0].ev())
         self.rec2.emit(e)
+        self.open_event, self.opened = e, {sid}
         ver = {"v1": SnmpVersion.v1, "v2c": SnmpVersion.v2c, "v3": SnmpVersion.v3}[cfg.ver]
         if auto_version and cfg.ver != "v1":
             ver = None
@@ -362,7 +365,21 @@ class AsyncApi:
     def close(self):
         self.core.closed = True
         self.transport.close()
-        self.rec2.emit(dict(ev="Close", sid=self.sid))
+        for k in sorted(self.opened):
+            self.rec2.emit(dict(ev="Close", sid=k))
+
+
+def use_sid(api, k):
+    """Several iterators of ONE real session are judged as separate trace sessions (the trace specification keeps one iterator
+    per session id): everything the session does from now on is recorded under trace session k."""
+    if k not in api.opened:
+        e = dict(api.open_event)
+        e["sid"] = k
+        api.rec2.emit(e)
+        api.opened.add(k)
+    api.sid = k
+    api.core.sid = k
+    api.proxy._sid = k
 
 
 def api_result_event(rec2, sid, op, exc_obj):
